@@ -367,7 +367,47 @@ Proof. exact (reaches_target_fair drift tv tail ch Hch). Qed.
 Theorem C07_scheduler_exists : sched_ok tail ch (first_sched ch).
 Proof. exact (first_sched_ok tail ch Hch). Qed.
 
+(** C07_reaches_target after a history in which the underlying Store.Append FAILED at will
+    ([xrun]: [XLF] the sync loop's write, [XTF i] learner call i's; since /repo f604e5b a
+    failed write changes nothing).  Only the drain is free of failing writes - exactly as
+    for getter errors: a failed write of the sync loop aborts the attempt with State().Error
+    set and leaves the target pending; if nothing is learned afterwards the Syncer waits in
+    that state (second conjunct: the error is the one from before the drain, and then
+    nothing more is claimed); the next learned head restarts the sync, which completes and
+    clears the error (C07_failed_write_example below shows both).  A learner call's failed
+    write leaves its header to pending and the loop, which stores it in the drain. *)
+Theorem C07_reaches_target_after_write_failures : forall (a : hdr) (l : list hdr) (xs : list xevent) (ds : list event),
+  consec (a :: l) -> Forall (good ch) (a :: l) -> h_height a = tail ->
+  Forall (fun x => wf_x tail x /\ hevx ch x) xs ->
+  let c0 := xrun drift tv (init_cfg tail (a :: l)) xs in
+  drain drift tv ch c0 ds ->
+  let c' := arun drift tv c0 ds in
+  let D := Dof c0 in let E := Eof c0 in
+  (length ds + mu D E c' <= mu D E c0)%nat /\
+  (ss_err (c_state c') = None \/ ss_err (c_state c') = ss_err (c_state c0)) /\
+  (stuck c' ->
+     all_quiet c' /\
+     (ss_err (c_state c') = None ->
+        reached ch (Lh c') c' /\ h_height (local_head c0) <= Lh c' /\
+        forall y, In y (flat_map twork (c_thr c0)) -> h_height y <= Lh c')).
+Proof. exact (reaches_target_after_write_failures drift tv tail ch Hch). Qed.
+
 End c07live.
+
+(** a failed write of the sync loop: the attempt ends with the error, the target stays
+    pending and the Syncer waits (nothing is enabled); the next learned head restarts the
+    sync, which completes: Store head = shim head = Syncer.Head() = 21, no error.  The
+    same run on the real code: corpus case failwrite_loop of the C03 and C07 checks. *)
+Example C07_failed_write_example :
+  let tvf := fun _ _ : hdr => TVOk in
+  let c0 := init_cfg 15 (crun wch 15 3) in
+  let xs1 := map XE (cx_gossip 0 20 ++ repeat (EL GErr) 6 ++ [EL (GList [wch 18; wch 19])]) ++ [XLF] in
+  let xs2 := map XE (cx_gossip 1 21 ++ repeat (EL GErr) 6 ++ [EL (GList [wch 18; wch 19])] ++ repeat (EL GErr) 30) in
+  let c1 := xrun 10%Z tvf c0 xs1 in
+  let c2 := xrun 10%Z tvf c0 (xs1 ++ xs2) in
+  cx_view c1 = (17, 17, 20, false, [wch 20], LIdle, true, Some SEStore, 20, false) /\
+  cx_view c2 = (21, 21, 21, false, [], LIdle, true, None, 21, true).
+Proof. vm_compute. split; reflexivity. Qed.
 
 Print Assumptions C07_reaches_target_atomic_calls.
 Print Assumptions C07_gapped_pending.
@@ -388,3 +428,4 @@ Print Assumptions C07_quiescent_shim_head_is_store_head.
 Print Assumptions C07_reaches_target.
 Print Assumptions C07_reaches_target_run_to_quiescence.
 Print Assumptions C07_scheduler_exists.
+Print Assumptions C07_reaches_target_after_write_failures.
